@@ -1,7 +1,8 @@
 (** C15 — Bezier extrema, bounding boxes, closest-point search and length bound the curve.
     Statements are in VekProofs.C15_spec; programs are regenerated from /repo by symx. *)
 From VekLib Require Import Ops ROps LinAlg RLin.
-From VekModel Require Import PolyLen.
+From VekModel Require Import PolyLen BezierSearch.
+Require Import QArith.
 Require Import NArith List.
 From VekProofs Require Import C15_spec C15_pa C15_pb C15_pd C15_pf C15_pg C15_ph C15_pi.
 
@@ -18,6 +19,15 @@ Theorem C15_length_model : C15_length_model_stmt.           Proof. exact C15_ph.
 Theorem C15_loop_segments : forall n, segments n = N.succ n.            Proof. exact segments_spec. Qed.
 Theorem C15_loop_last : forall n, last (seg_ends n) 0%N = N.succ n.     Proof. exact last_end. Qed.
 
+(** closest-point search, coarse phase and refinement loop (hand-written model over exact rationals, tied to the
+    code by the correspondence run on dyadic rationals): for every fuel, curve, query, samples, half interval and epsilon *)
+Theorem C15_search_loop : forall fuel curve p samples h eps s',
+  search fuel curve p samples h eps = Some s' ->
+  (dd s' <= BezierSearch.dist2 (ev curve 1) p)%Q /\ (forall tx, In tx samples -> (dd s' <= BezierSearch.dist2 (snd tx) p)%Q) /\
+  dd_ok p s' /\ ((forall tx, In tx samples -> snd tx = ev curve (fst tx)) -> on_curve curve s').
+Proof. exact search_spec. Qed.
+
+Print Assumptions C15_search_loop.
 Print Assumptions C15_loop_segments.
 Print Assumptions C15_loop_last.
 Print Assumptions C15_quad_inflection.
